@@ -246,15 +246,31 @@ def d2_d3(ctx, rep):
         # extra statements in the loop that change the counting set without appending
         if isinstance(lp, ast.For):
             it = lp.iter
-            good = isinstance(it, ast.Call) and call_name(it) == 'range' and len(it.args) == 1 and is_nodes_minus_one(prog, fn, it.args[0]) \
-                and st in lp.body and not any(isinstance(x, (ast.Continue, ast.Break, ast.Return)) for x in ast.walk(lp))
-            rep.check('D2.edges', fn, it, good, f'{clsn}.{meth}: one unconditional append per iteration of range(n_nodes - 1)',
-                      f'{clsn}.{meth}: the edge loop is {short(it)} / the append is conditional: the tree does not get n_nodes - 1 edges',
-                      construct=f'{clsn}.{meth} edge count')
-            kv = lp.target.id if isinstance(lp.target, ast.Name) else None
+            uncond = st in lp.body and not any(isinstance(x, (ast.Continue, ast.Break, ast.Return)) for x in ast.walk(lp))
+            is_range = isinstance(it, ast.Call) and call_name(it) == 'range' and len(it.args) == 1
+            # the position counter: the loop variable of range(...), the first element of enumerate(...), the element zipped from a range(...)
+            kv = lp.target.id if isinstance(lp.target, ast.Name) and is_range else None
+            counted = None          # the expression that bounds the number of iterations, when one is visible
+            if is_range:
+                counted = it.args[0]
+            elif isinstance(it, ast.Call) and call_name(it) == 'enumerate' and it.args and isinstance(lp.target, ast.Tuple) and lp.target.elts and isinstance(lp.target.elts[0], ast.Name) \
+                    and len(it.args) == 1 and not it.keywords:
+                kv = lp.target.elts[0].id
+            elif isinstance(it, ast.Call) and call_name(it) == 'zip' and isinstance(lp.target, ast.Tuple) and len(lp.target.elts) == len(it.args):
+                for te, ae in zip(lp.target.elts, it.args):
+                    if isinstance(ae, ast.Call) and call_name(ae) == 'range' and len(ae.args) == 1 and isinstance(te, ast.Name):
+                        kv, counted = te.id, ae.args[0]
+            if not uncond:
+                rep.bad('D2.edges', fn, it, f'{clsn}.{meth}: the append is conditional / the loop can be left early: the tree does not get n_nodes - 1 edges', construct=f'{clsn}.{meth} edge count')
+            elif is_range:
+                rep.check('D2.edges', fn, it, is_nodes_minus_one(prog, fn, counted), f'{clsn}.{meth}: one unconditional append per iteration of range(n_nodes - 1)',
+                          f'{clsn}.{meth}: the edge loop is {short(it)}: the tree does not get n_nodes - 1 edges', construct=f'{clsn}.{meth} edge count')
+            else:
+                rep.undecided('D2.edges', fn, it, f'{clsn}.{meth}: one append per element of `{short(it, 50)}`; that this sequence has n_nodes - 1 elements is not derived',
+                              construct=f'{clsn}.{meth} edge count')
             idx = _edge_index_arg(prog, fn, ap)
-            if idx is None:
-                rep.undecided('D3.index', fn, ap, f'{clsn}.{meth}: the index given to the new edge is not derived', construct=f'{clsn}.{meth} edge index')
+            if idx is None or kv is None:
+                rep.undecided('D3.index', fn, ap, f'{clsn}.{meth}: the index given to the new edge / the position counter of the loop is not derived', construct=f'{clsn}.{meth} edge index')
             else:
                 rep.check('D3.index', fn, ap, isinstance(idx, ast.Name) and idx.id == kv, f'{clsn}.{meth}: edge index = loop counter',
                           f'{clsn}.{meth}: the edge index is {short(idx)}, not its position', construct=f'{clsn}.{meth} edge index')
